@@ -805,6 +805,7 @@ impl rustc_driver::Callbacks for Cb {
         let sm = tcx.sess.source_map();
         let mut fns = Vec::new();
         let mut mirs = Vec::new();
+        let mut consts: Vec<String> = Vec::new();
         for owner in tcx.hir_body_owners() {
             let did = owner.to_def_id();
             let kind = tcx.def_kind(did);
@@ -847,6 +848,14 @@ impl rustc_driver::Callbacks for Cb {
                         esc(&path),
                         mir_facts(tcx, owner)
                     ));
+                }
+                hir::def::DefKind::Const { .. } | hir::def::DefKind::AssocConst { .. } => {
+                    // constant items (also those declared inside a function body): their defining expression
+                    let body = tcx.hir_body_owned_by(owner);
+                    let tc = tcx.typeck(owner);
+                    let mut d = D { tcx, tc, types: &mut types, unsafe_lines: Vec::new() };
+                    let b = d.expr(body.value);
+                    consts.push(format!("{}:{{\"path\":{},\"body\":{}}}", esc(&path), esc(&path), b));
                 }
                 hir::def::DefKind::Closure => {
                     let root = tcx.typeck_root_def_id(did);
@@ -923,7 +932,7 @@ impl rustc_driver::Callbacks for Cb {
         }
         let tys: Vec<String> = types.list.iter().map(|t| esc(t)).collect();
         let out = format!(
-            "{{\"crate\":{},\"src_root\":{},\"rustc\":{},\"flags\":{},\"types\":{},\"fns\":{{{}}},\"mir\":{{{}}},\"adts\":{{{}}},\"statics\":{},\"impls\":{}}}",
+            "{{\"crate\":{},\"src_root\":{},\"rustc\":{},\"flags\":{},\"types\":{},\"fns\":{{{}}},\"mir\":{{{}}},\"adts\":{{{}}},\"statics\":{},\"impls\":{},\"consts\":{{{}}}}}",
             esc(&want),
             esc(&std::env::var("NN_FACTS_SRC").unwrap_or_default()),
             esc(&tcx.sess.cfg_version),
@@ -937,7 +946,8 @@ impl rustc_driver::Callbacks for Cb {
             mirs.join(","),
             adts.join(","),
             arr(statics),
-            arr(impls)
+            arr(impls),
+            consts.join(",")
         );
         std::fs::write(&out_path, out).expect("write facts");
         Compilation::Continue
